@@ -492,8 +492,10 @@ func c22Gen(r *vh.Rand, tier string, n int) []c22In {
 		n = 60
 	}
 	var ins []c22In
-	// the recorded finding first, as a fixed replay: an active connection, the disconnect task fails in the security setup
+	// regression cases for the repaired finding 8 (/repo commit 63d7dd9), always first: an active connection, the disconnect
+	// (resp. forget) task fails in its first security setup; conns AND repository must be as before
 	ins = append(ins, c22In{Init: []c22Conn{{ID: 0, Attrs: true}}, Ops: []c22Op{{Kind: "disconnect", ID: 0, Fail: "main", K: 1}}})
+	ins = append(ins, c22In{Init: []c22Conn{{ID: 0, Auto: true, Attrs: true}}, Ops: []c22Op{{Kind: "disconnect", ID: 0, Forget: true, Fail: "main", K: 1}}})
 	// every (entry state, operation, failure point) for the pair with hooks, one change each
 	entries := []*c22Conn{nil, {Attrs: true}, {Auto: true, Attrs: true}, {Auto: true, Undesired: true}, {HotplugGone: true, Attrs: true}}
 	ops := []c22Op{{Kind: "connect"}, {Kind: "connect", Auto: true}, {Kind: "disconnect"}, {Kind: "disconnect", Forget: true},
